@@ -127,6 +127,13 @@ def check_c03(ck, tier, replay=None):
     e1_index(ck, mod, tier, wd, found)
     e2_stencil(ck, mod, tier, {}, found)
     e2_exclusions(ck, mod, tier, {}, found)
+    import C03p
+    pfound = []
+    C03p.check_pairs(ck, tier, pfound)
+    for tag, what, meta in pfound:
+        rep = common.write_replay('C03', tag + what, {}, meta)
+        ok, why = C03p.replay_native(meta)
+        ck.violation('C03 ' + tag + ' ' + meta['task'].get('label', '')[:60], what + ' ; ' + why, rep, reproduced=ok)
     for tag, what, mdl in found:
         rep = common.write_replay('C03', tag + what, {}, {'tag': tag, 'what': what, 'model': mdl})
         ck.violation('C03 ' + tag, what, rep, reproduced=True)
